@@ -348,7 +348,9 @@ class Server(object):
             op = step[0]
             if op in ('compress', 'compress_noswitch', 'encrypt',
                       'success') and \
-                    self._plugins_pending(app):
+                    self._plugins_pending(app) and not (
+                        app.beh.get('pipeline_plugins') and
+                        op == 'encrypt'):
                 app.waiting = 'plugins'
                 return
             app.login_pc += 1
